@@ -178,16 +178,16 @@ def ft11(F, R):
         if not fn.npath.startswith(FATVOL + "::") or "{closure" in fn.npath:
             continue
         seen = set()
-        for (b, i, g) in all_guards(fn):
-            if not (g.kind == "bool" and g.term[0] == "cmp" and g.term[1] in ("Lt", "Le", "Gt", "Ge")):
+        from .ev import tested_comparisons
+        for (b, i, g, op, a, bb) in [(b, i, g, op, a, bb) for (b, i, g) in all_guards(fn) for (op, a, bb) in tested_comparisons(g)]:
+            if op not in ("Lt", "Le", "Gt", "Ge"):
                 continue
-            if "cluster_count" not in tstr(g.term):
+            if "cluster_count" not in tstr(a) + tstr(bb):
                 continue
-            k = tstr(g.term)
+            k = "%s %s %s" % (op, tstr(a), tstr(bb))
             if k in seen:
                 continue
             seen.add(k)
-            op, a, bb = g.term[1], g.term[2], g.term[3]
             if op in ("Gt", "Ge"):
                 a, bb = bb, a
                 op = {"Gt": "Lt", "Ge": "Le"}[op]
@@ -199,7 +199,7 @@ def ft11(F, R):
             rest = _padd(diff, exp, -1)
             ok = len(rest) == 1 and list(rest.values()) == [-1] and all(len(m) == 1 for m in rest)
             ncmp += 1
-            R.require(ok, fn, "bound:%s" % fn.npath.split("::")[-1], "cluster range test `%s %s %s` is not `x < cluster_count + 2`: this site disagrees with the allocator about the last valid cluster (cluster_count + 1)" % (show(g.term[2]), g.term[1], show(g.term[3])), fn.loc(b))
+            R.require(ok, fn, "bound:%s" % fn.npath.split("::")[-1], "cluster range test `%s %s %s` is not `x < cluster_count + 2`: this site disagrees with the allocator about the last valid cluster (cluster_count + 1)" % (show(a), op, show(bb)), fn.loc(b))
         for b, t in fn.calls():
             if call_matches(t, ("FatVolume::find_next_free_cluster",)):
                 ncall += 1
@@ -767,19 +767,18 @@ def ft13(F, R):
         if not (fn.npath.startswith(FATVOL + "::") or fn.npath.startswith("volume_mgr::VolumeManager")) or "{closure" in fn.npath:
             continue
         seen = set()
-        for (b, i, g) in all_guards(fn):
-            if not (g.kind == "bool" and g.term[0] == "cmp" and g.term[1] in ("Lt", "Le", "Gt", "Ge", "Eq")):
+        from .ev import tested_comparisons
+        for (b, i, g, op, a, z) in [(b, i, g, op, a, z) for (b, i, g) in all_guards(fn) for (op, a, z) in tested_comparisons(g)]:
+            if op not in ("Lt", "Le", "Gt", "Ge", "Eq"):
                 continue
-            a, z = g.term[2], g.term[3]
             is_res = lambda t: t[0] == "c" and t[1] == 2 and t[2] and t[2].endswith("RESERVED_ENTRIES")
             if not (is_res(a) or is_res(z)):
                 continue
-            k = tstr(g.term)
+            k = "%s %s %s" % (op, tstr(a), tstr(z))
             if k in seen:
                 continue
             seen.add(k)
             n += 1
-            op = g.term[1]
             if is_res(a):    # constant on the left: mirror
                 op = {"Lt": "Gt", "Le": "Ge", "Gt": "Lt", "Ge": "Le", "Eq": "Eq"}[op]
             short = fn.npath.split("::")[-1]
@@ -1132,7 +1131,7 @@ def mk1(F, R):
     R.require(bool(ok_edges) and not leak, fn, "found-refuses", "after the lookup found an entry make_dir is still reachable", fn.loc(lk[0]))
 
 
-@rule("MT7", ["C15"], floor=20,
+@rule("MT7", ["C15"], floor=22,
       doc="mounting does not refuse what the specification allows: for every BPB / MBR field with a small set of legal values (BPB_SecPerClus 1,2,..,128; BPB_NumFATs 1,2; BPB_Media F0,F8..FF; BPB_BytsPerSec 512; BPB_FSVer 0; partition status 00,80; the five FAT partition types) and every legal value, a success return of the function that tests the field stays reachable when the tests on that field are decided for that value - an added 'sanity check' that leaves a legal value out (e.g. a power-of-two list without 128) is a violation, checks that only refuse illegal values are not")
 def mt7(F, R):
     call_is = lambda nm: (lambda q: q[0] == "call" and q[1] and q[1].endswith("Bpb::" + nm))
@@ -1145,6 +1144,17 @@ def mt7(F, R):
                   (fname, "BPB_BytsPerSec", call_is("bytes_per_block"), [512]), (fname, "BPB_FSVer", call_is("fs_ver"), [0])]
     table += [("volume_mgr::VolumeManager::open_raw_volume", "partition status", idx_is(0), [0x00, 0x80]),
               ("volume_mgr::VolumeManager::open_raw_volume", "partition type", idx_is(4), [0x04, 0x06, 0x0B, 0x0C, 0x0E])]
+    # what the boot sector says decides: once parse_volume has accepted the volume, open_raw_volume cannot refuse it any more
+    # (only a full volume table can) - no cross-check of the MBR type byte against the FAT type, which the specification
+    # derives from the cluster count alone (0x0C partitions holding FAT16 are common)
+    orv = F.fn("volume_mgr::VolumeManager::open_raw_volume")
+    acc = [(gb, gi) for (gb, gi, g) in all_guards(orv) if g_try_ok("parse_volume")(g)]
+    R.require(len(acc) >= 1, orv, "parse-accepted", "open_raw_volume must use parse_volume(..)?", orv.loc(0))
+    for (gb, gi) in acc:
+        rs = orv.reach([orv.succ(gb)[gi][0]])
+        late = sorted({x[2] for x in err_returns(orv) if x[0] in rs and x[2] != "TooManyOpenVolumes"})
+        late += ["?" for b, t in orv.calls() if b in rs and (callee_of(t) or "").endswith("FromResidual::from_residual") and "push(" not in tstr(orv.call_term(t, b))]
+        R.require(not late, orv, "accepted-volume-opens", "open_raw_volume can still refuse (%s) a volume whose boot sector parse_volume has accepted" % ", ".join(late), orv.loc(gb))
     for fname, label, pred, legal in table:
         fn = F.fn(fname)
         oks = [x[0] for x in ok_returns(fn)]
@@ -1156,3 +1166,217 @@ def mt7(F, R):
             rs = fn.reach([0], cut_edges=cut)
             R.require(any(b in rs for b in oks), fn, "%s=%#x" % (label, v), "%s refuses every volume whose %s is %#x, a value the specification allows" % (fname.split("::")[-1], label, v), fn.loc(0),
                       okdetail="%s = %#x can still succeed" % (label, v))
+
+
+import re as _re
+
+_PASS_THROUGH = ("DerefMut::deref_mut", "IndexMut::index_mut", "chunks_exact_mut", "chunks_mut", "iter_mut", "Iterator::next", "Iterator::enumerate", "enumerate",
+                 "Iterator::peekable", "peekable", "Peekable::peek_mut", "peek_mut", "split_at_mut", "IntoIterator::into_iter", "into_iter", "AsMut::as_mut", "as_mut_slice",
+                 "Iterator::skip", "Iterator::take", "Iterator::rev", "Iterator::zip", "Iterator::step_by", "first_mut", "last_mut", "get_mut", "Option::unwrap", "Option::expect")
+
+
+def _is_block_mut_ty(ty):
+    """&mut [u8] / &mut [u8; N] / &mut Block / &mut [Block] (through any number of outer references)"""
+    ty = _re.sub(r"&'[A-Za-z_0-9]+ ", "&", ty).strip()
+    while ty.startswith("&mut &") or ty.startswith("& &"):
+        ty = ty[ty.index(" ") + 1:]
+    if not ty.startswith("&mut "):
+        return False
+    inner = ty[5:].strip()
+    return inner.startswith("[u8") or inner in ("blockdevice::Block", "Block") or inner.startswith("[blockdevice::Block")
+
+
+def block_mutations(fn):
+    """(block, kind, detail term) for every place where fn changes bytes behind a mutable byte slice / Block reference:
+    indexed stores and calls that receive such a reference and are not mere re-borrowing adaptors"""
+    out = []
+    for b, i, s in fn.stmts():
+        if s["k"] == "Assign" and s["p"]["proj"] and any(e[0] == "deref" for e in s["p"]["proj"]) and _is_block_mut_ty(fn.locals[s["p"]["l"]]["ty"]):
+            v = fn.term_of_rvalue(s["rv"], b)
+            out.append((b, "store:%s" % (hex(v[1]) if v[0] == "c" and isinstance(v[1], int) else "?"), v))
+    for b, t in fn.calls():
+        c = callee_of(t) or ""
+        if c.endswith(_PASS_THROUGH) or t.get("callee_local") or c.startswith(("fat::", "volume_mgr::", "filesystem::", "blockdevice::")):
+            continue
+        for a in t["args"]:
+            if a.get("k") in ("move", "copy") and not a["p"]["proj"] and _is_block_mut_ty(fn.locals[a["p"]["l"]]["ty"]):
+                out.append((b, c.split("::")[-1], fn.call_term(t, b)))
+                break
+    return out
+
+
+# function -> the only ways it may change a directory / FAT / FSInfo / data block it holds mutably (one line of reason each)
+BLOCK_MUTATORS = {
+    "fat::volume::FatVolume::update_info_sector": {"copy_from_slice"},        # the two FSInfo fields
+    "fat::volume::FatVolume::update_fat": {"write_u16", "write_u32"},          # one FAT entry
+    "fat::volume::FatVolume::write_new_directory_entry": {"copy_from_slice"},  # the serialized entry into the free slot
+    "fat::volume::FatVolume::delete_entry_in_block": {"store:0xe5"},           # the tombstone into the matched slot
+    "fat::volume::FatVolume::write_entry_to_disk": {"copy_from_slice"},        # the serialized entry at its recorded offset
+    "fat::volume::FatVolume::make_dir": {"copy_from_slice"},                   # '.' and '..' into the blank first block
+    "volume_mgr::VolumeManager::write": {"copy_from_slice"},                   # the caller's bytes into the data block
+    "volume_mgr::VolumeManager::read": {"copy_from_slice"},                    # the data block into the caller's buffer
+}
+
+
+@rule("BM2", ["C04", "C03", "C06", "C09"], floor=10,
+      doc="block mutation inventory: inside the FS layer the bytes of a block held mutably (directory, FAT, FSInfo, data) are changed only by the listed functions and only in the listed way - write_new_directory_entry and write_entry_to_disk copy one serialized entry, delete_entry_in_block stores the 0xE5 tombstone, update_fat writes one FAT entry, update_info_sector copies the two FSInfo fields, make_dir copies '.' and '..', write()/read() copy the caller's bytes; any other store or mutating call on such a block (e.g. 'terminating' the directory behind a new entry, patching a neighbouring slot) is a violation; in write_new_directory_entry the copied bytes are DirEntry::serialize(..) and the destination is the slot the scan found free")
+def bm2(F, R):
+    seen = set()
+    for fn in F.fns:
+        if not fn.npath.startswith(("fat::volume::", "volume_mgr::")) or "::test" in fn.npath or "::tests" in fn.npath:
+            continue
+        muts = block_mutations(fn)
+        if not muts:
+            continue
+        owner = fn.npath.split("::{closure")[0]
+        allowed = BLOCK_MUTATORS.get(owner)
+        for (b, kind, v) in muts:
+            if allowed is None:
+                R.bad(fn, "mutator:" + owner.split("::")[-1], "%s changes the bytes of a block (%s) but is not one of the functions that may" % (owner.split("::")[-1], kind), fn.loc(b))
+            else:
+                seen.add(owner)
+                R.require(kind in allowed, fn, "%s:%s" % (owner.split("::")[-1], kind), "%s changes a block by `%s` (%s); it may only use %s - a byte outside the entry / field this function is about is modified" % (owner.split("::")[-1], kind, tstr(v)[:80], sorted(allowed)), fn.loc(b))
+    R.require(seen >= set(BLOCK_MUTATORS), None, "mutators-found", "expected block mutations in %s" % sorted(x.split("::")[-1] for x in set(BLOCK_MUTATORS) - seen))
+    # the new entry goes into the slot found free, and what goes there is the serialized entry
+    fn = F.fn(FATVOL + "::write_new_directory_entry")
+    for (b, kind, v) in block_mutations(fn):
+        if kind != "copy_from_slice":
+            continue
+        dst, src = strip_refs(v[2][0]), v[2][1]
+        R.require(has_sub(src, lambda q: q[0] == "call" and q[1] and q[1].endswith("DirEntry::serialize")), fn, "new-entry:bytes", "the bytes copied into the directory are not DirEntry::serialize(..)", fn.loc(b))
+        free = guarded(fn, b, g_call("OnDiskDirEntry::is_valid", False))[0]
+        item = has_sub(dst, lambda q: q[0] == "call" and q[1] and q[1].endswith("Iterator::next"))
+        R.require(free and item, fn, "new-entry:slot", "the new entry must be copied into the slot the scan found free (the loop item under !is_valid())", fn.loc(b))
+
+
+@rule("RD2", ["C03", "C06", "C01"], floor=2,
+      doc="the root directory is always opened as the sentinel ClusterId::ROOT_DIR: every DirectoryInfo pushed by open_root_dir has cluster == ROOT_DIR (never the FAT32 root's real start cluster) - make_dir's '..' = 0 for children of the root, cluster_to_block's root mapping, the fixed FAT16 root and get_entry's cluster-0 mapping all recognise the root by this one value")
+def rd2(F, R):
+    from .fsmodel import table_of_term
+    fn = F.fn(VM + "::open_root_dir")
+    root = None
+    for k, c in F.consts.items():
+        if k.endswith("ClusterId::ROOT_DIR"):
+            root = c
+    pushes = [(b, t) for b, t in fn.calls() if call_matches(t, ("Vec::push", "Vec::push_unchecked")) and table_of_term(fn.term_of_operand(t["args"][0], b)) == "open_dirs"]
+    R.require(len(pushes) >= 1 and root is not None, fn, "push", "open_root_dir must push a DirectoryInfo into open_dirs", fn.loc(0))
+    flds = [f["name"] for f in F.adts["filesystem::directory::DirectoryInfo"]["variants"][0]["fields"]]
+    for b, t in pushes:
+        v = strip_refs(fn.term_of_operand(t["args"][1], b))
+        alts = [v] if v[0] != "var" else [strip_refs(d) for d in var_def_terms(fn, v[1])]
+        ok = bool(alts)
+        got = []
+        for a in alts:
+            if not (a[0] == "agg" and a[2] and a[2].endswith("DirectoryInfo")):
+                ok = False
+                continue
+            cl = strip_refs(a[3][flds.index("cluster")])
+            cls = [cl] if cl[0] != "var" else [strip_refs(d) for d in var_def_terms(fn, cl[1])]
+            for c in cls:
+                got.append(tstr(c))
+                if not (c[0] == "c" and c[2] and c[2].endswith("ClusterId::ROOT_DIR")):
+                    ok = False
+        R.require(ok, fn, "sentinel", "open_root_dir opens %s; the root directory must be opened as the sentinel ClusterId::ROOT_DIR on both FAT types (a child's '..' entry, the FAT16 fixed root and the cluster mapping all key on it)" % sorted(set(got)), fn.loc(b))
+
+
+@rule("FC1", ["C05", "C03", "C02"], floor=4,
+      doc="chain-freeing walks follow every link: in free_cluster_chain and truncate_cluster_chain, once next_cluster(cursor) has answered Ok(n) within a trip of the walk, the function cannot finish successfully without going round again - no Ok return is reachable from the Ok(n) edge except through the loop header (the successor carried in an Option local is followed through: Some(n) cannot take the later None arm) - and the cursor's next value is that n; so the walk ends only on EndOfFile or on the header's own range test, never on a 'suspicious' link (a fragmented chain steps backwards all the time)")
+def fc1(F, R):
+    from .ev import resolve_variant_temps
+    for name in ("free_cluster_chain", "truncate_cluster_chain"):
+        fn = F.fn(FATVOL + "::" + name)
+        ncs = [(b, t) for b, t in fn.calls() if call_matches(t, ("FatVolume::next_cluster",)) and any(b in body for (h, body, backs) in fn.loops())]
+        R.require(len(ncs) == 1, fn, name + ":walk", "expected one next_cluster call inside the freeing loop of %s" % name, fn.loc(0))
+        if len(ncs) != 1:
+            continue
+        nb, nt = ncs[0]
+        h, body, backs = min([l for l in fn.loops() if nb in l[1]], key=lambda l: len(l[1]))
+        cur = strip_refs(fn.term_of_operand(nt["args"][2], nb))
+        on_call = [(gb, gi, g) for (gb, gi, g) in all_guards(fn) if g.kind in ("variant", "variants") and g.term[0] == "call" and g.term[3] == nb]
+        # the match on the lookup's answer itself (later switches on the same value are drop-flag bookkeeping behind it)
+        first = [gb for (gb, gi, g) in on_call if not any(gb2 != gb and fn.dominates(gb2, gb) for (gb2, _i, _g) in on_call)]
+        ok_edges = [(gb, gi) for (gb, gi, g) in on_call if g.kind == "variant" and g.variant == "Ok" and gb in first]
+        R.require(bool(ok_edges) and cur[0] == "var", fn, name + ":ok-arm", "the Ok(n) answer of next_cluster is not matched / the cursor is not a local", fn.loc(nb))
+        for (gb, gi) in ok_edges:
+            start = fn.succ(gb)[gi][0]
+            cut = resolve_variant_temps(fn, [start], stop_blocks=[h])
+            rs = fn.reach([start], cut_edges=cut, cut_blocks=[h])
+            leaves = [x for x in ok_returns(fn) if x[0] in rs]
+            R.require(not leaves, fn, name + ":follows-every-link", "%s can finish successfully right after next_cluster answered Ok(n): the rest of the chain stays allocated (lost clusters) although the entry that owned it is gone" % name, fn.loc(gb))
+            # the cursor's new value is the successor just read
+            defs = [d for d in fn.defs().get(cur[1], []) if d[1] in rs and d[0] == "assign"]
+            def from_lookup(t, depth=0):
+                t = strip_refs(t)
+                if has_sub(t, lambda q: q[0] == "call" and q[3] == nb and q[1] and q[1].endswith("next_cluster")):
+                    return True
+                if depth < 4:
+                    for q in subterms(t):
+                        if q[0] == "var":
+                            for d in fn.defs().get(q[1], []):
+                                if d[0] == "assign" and d[1] in rs | {gb} and from_lookup(fn.term_of_rvalue(d[3], d[1]), depth + 1):
+                                    return True
+                                if d[0] == "call" and d[1] == nb:
+                                    return True
+                return False
+            R.require(bool(defs) and all(from_lookup(fn.term_of_rvalue(d[3], d[1])) for d in defs), fn, name + ":cursor=successor", "after Ok(n) the walk's cursor is not set to n", fn.loc(gb))
+
+
+@rule("FO1", ["C07", "C01", "C08"], floor=3,
+      doc="one handle per file: VolumeManagerData::file_is_open answers true exactly when some open-file record has the same volume and the same directory-entry location (entry_block, entry_offset) - the true answer lies behind these three equalities and behind no other condition (no exemption by mode, size or handle), and false is answered only when the whole table has been scanned; every open / delete path consults it (MD3, MD8)")
+def fo1(F, R):
+    fn = F.fn(VMD + "::file_is_open")
+    trues = [d[1] for d in fn.defs().get(0, []) if d[0] == "assign" and fn.term_of_rvalue(d[3], d[1])[:2] == ("c", 1)]
+    falses = [d[1] for d in fn.defs().get(0, []) if d[0] == "assign" and fn.term_of_rvalue(d[3], d[1])[:2] == ("c", 0)]
+    others = [d for d in fn.defs().get(0, []) if not (d[0] == "assign" and fn.term_of_rvalue(d[3], d[1])[0] == "c")]
+    R.require(len(trues) >= 1 and len(falses) >= 1 and not others, fn, "answers", "file_is_open must answer with the constants true / false only", fn.loc(0))
+
+    def field_eq(g, fields, truth=True):
+        for (op, a, b, t) in __import__("analysis.ev", fromlist=["cmp_forms"]).cmp_forms(g):
+            if op == "Eq" and t == truth:
+                for x, y in ((a, b), (b, a)):
+                    x, y = strip_refs(x), strip_refs(y)
+                    if x[0] == "place" and [e for e in x[2] if isinstance(e, str) and e not in ("*", "0") and not e.startswith("as:")][-len(fields):] == list(fields) and has_sub(x, lambda q: q[0] == "call" and q[1] and q[1].endswith("Iterator::next")):
+                        if y[0] in ("arg", "place") and (y[:2] == ("arg", 2) or (y[0] == "place" and strip_refs(y[1])[:2] == ("arg", 3) and [e for e in y[2] if isinstance(e, str) and e != "*"][-len(fields):] == list(fields)[-1:] * 1 or strip_refs(y)[:2] == ("arg", 2))):
+                            return True
+        return False
+    want = {"volume": ("raw_volume",), "block": ("entry", "entry_block"), "offset": ("entry", "entry_offset")}
+    for tb in trues:
+        for k, flds in want.items():
+            R.require(guarded(fn, tb, lambda g, flds=flds: field_eq(g, flds))[0], fn, "true-needs:" + k, "file_is_open can answer true without %s equality" % "/".join(flds), fn.loc(tb))
+        extra = []
+        for (gb, gi, g) in all_guards(fn):
+            if not fn.unreachable_without(tb, [(gb, gi)]):
+                continue
+            if any(field_eq(g, flds) for flds in want.values()):
+                continue
+            if g.kind == "variant" and g.variant == "Some" and g.term[0] == "call" and (g.term[1] or "").endswith("Iterator::next"):
+                continue
+            extra.append(repr(g)[:80])
+        R.require(not extra, fn, "true-iff-same-entry", "file_is_open answers true only under extra conditions (%s): some second open / delete of a file that is already open is let through" % "; ".join(extra), fn.loc(tb))
+    # false only after the whole table was scanned
+    for fb in falses:
+        ok = guarded(fn, fb, lambda g: g.kind == "variant" and g.variant == "None" and g.term[0] == "call" and (g.term[1] or "").endswith("Iterator::next"))[0]
+        R.require(ok, fn, "false-after-scan", "file_is_open can answer false before the scan of open_files is complete", fn.loc(fb))
+    # and a record that matches cannot be skipped: from the edge where all three equalities hold, the next trip of the scan is not reachable
+    eq_edges = [(gb, gi) for (gb, gi, g) in all_guards(fn) if field_eq(g, want["offset"])]
+    nx = [b for b, t in fn.calls() if (callee_of(t) or "").endswith("Iterator::next")]
+    for (gb, gi) in eq_edges:
+        if guarded(fn, gb, lambda g: field_eq(g, want["volume"]))[0] and guarded(fn, gb, lambda g: field_eq(g, want["block"]))[0]:
+            rs = fn.reach([fn.succ(gb)[gi][0]])
+            R.require(not any(b in rs for b in nx) and not any(b in rs for b in falses), fn, "match-is-final", "a record with the same volume and entry location can be skipped (the scan goes on / answers false after it matched)", fn.loc(gb))
+
+
+@rule("CV1", ["C11", "C08", "C16"], floor=2,
+      doc="a failed close_volume leaves the volume open: the VolumeInfo is removed from open_volumes only after update_info_sector(..)? succeeded, and no error return is reachable after the removal - so a close that failed on a device fault can be retried on the same handle and the FSInfo record is still brought up to date")
+def cv1(F, R):
+    from .fsmodel import table_of_term
+    fn = F.fn(VM + "::close_volume")
+    rem = [b for b, t in fn.calls() if call_matches(t, ("Vec::swap_remove", "Vec::remove", "Vec::pop", "Vec::clear", "Vec::truncate", "Vec::retain")) and table_of_term(fn.term_of_operand(t["args"][0], b)) == "open_volumes"]
+    upd = [b for b, t in fn.calls() if call_matches(t, ("FatVolume::update_info_sector",))]
+    R.require(len(rem) == 1 and len(upd) >= 1, fn, "sites", "close_volume must bring the FSInfo record up to date and remove the volume from open_volumes", fn.loc(0))
+    for b in rem:
+        ok, _ = guarded(fn, b, g_try_ok("FatVolume::update_info_sector"))
+        R.require(ok, fn, "remove-after-fsinfo", "the volume is removed from the table before / without update_info_sector having succeeded: a device error leaves the caller with a dead handle and a stale FSInfo record", fn.loc(b))
+        after = fn.reach_after(b)
+        late = [x for x in err_returns(fn) if x[0] in after] + [bb for bb, t in fn.calls() if bb in after and (callee_of(t) or "").endswith("FromResidual::from_residual")]
+        R.require(not late, fn, "no-error-after-remove", "close_volume can still fail after it has removed the volume from the table", fn.loc(b))
